@@ -18,7 +18,7 @@ Record rstate := {
 
 Definition upd {A} (f : Z -> A) (k : Z) (v : A) : Z -> A := fun x => if x =? k then v else f x.
 
-Definition init : rstate :=
+Definition rc_init : rstate :=
   {| refs := fun _ => 0; closed := fun _ => false; wbroker := fun _ => 0; wmap := fun _ => None; kids := []; fresh := 0 |}.
 
 (* refBrokerConsumer *)
@@ -57,7 +57,7 @@ Inductive op :=
 | Iter (i : nat) (res : option Z)    (* one iteration of child i's dispatcher loop; Some b: dispatch() found broker b *)
 | Exit (i : nat).                    (* the dispatcher leaves its loop (partition consumer closed) *)
 
-Definition step (clear : bool) (s : rstate) (o : op) : rstate :=
+Definition rc_step (clear : bool) (s : rstate) (o : op) : rstate :=
   match o with
   | Start b => let '(w, s1) := ref s b in set_kids s1 (kids s1 ++ [Some w])
   | Iter i res =>
@@ -78,7 +78,7 @@ Definition step (clear : bool) (s : rstate) (o : op) : rstate :=
       else s
   end.
 
-Definition run (clear : bool) (ops : list op) : rstate := fold_left (step clear) ops init.
+Definition rc_run (clear : bool) (ops : list op) : rstate := fold_left (rc_step clear) ops rc_init.
 
 (* number of partition consumers whose child.broker is worker w *)
 Fixpoint cnt (w : Z) (k : list (option Z)) : Z :=
